@@ -9,7 +9,7 @@ from pyvc.interp import NS, LoopSpec, GhostGen
 from pyvc.registry import Contract, resolve
 from pyvc.runner import Lemma, Bounded
 from pyvc.lib import numpy_ as npm
-from .common import registry, ceil_div, zmin, zmax, forall, implies, AND, OR, NOT, opt_int
+from .common import registry, ceil_div, zmin, zmax, forall, implies, AND, OR, NOT, opt_int, frame_snapshot, frame_clauses
 
 LEVEL = "proof"
 UT = "quantem.core.utils.utils"
@@ -1307,7 +1307,126 @@ def rt_reset_recon(inp):
 for _c in (C_RESETRECON, C_RESETRECON2):
     _c.rt, _c.rt_family = rt_reset_recon, (lambda: iter([dict(seed=0), dict(seed=7)]))
 
-CONTRACTS = [C_SUBDIVIDE, C_GENERATE, C_ITER, C_LEN, C_ITERVAL, C_VALLEN, C_INIT, C_RNGSET, C_MSET, C_RESET, C_RESETRECON, C_RESETRECON2, C_CPA, C_ERR, C_RECORD, C_RECON]
+# --------------------------------------------------------------------------------------------
+# OptimizerMixin: what a reset rebuilds the optimizers FROM must not drift while the run steps them
+# (round-5 seeded change C09_J: step_scheduler wrote the decayed learning rate back into _optimizer_params, so the
+#  "same run after a reset" restarted from another learning rate - every single call still looked right)
+# --------------------------------------------------------------------------------------------
+OM = "quantem.core.ml.optimizer_mixin"
+OMC = resolve(f"{OM}:OptimizerMixin")
+
+
+class _Sub(Opaque):
+    """opaque collaborator that can also be subscripted (optimizer.param_groups[0]["lr"])"""
+
+    def __getattr__(self, k):
+        if k.startswith("__"):
+            raise AttributeError(k)
+        return _Sub(f"{self._name}.{k}")
+
+    def __getitem__(self, k):
+        return _Sub(f"{self._name}[{k!r}]")
+
+
+def _plateau():
+    import torch
+
+    class _Plateau(torch.optim.lr_scheduler.ReduceLROnPlateau):
+        _pyvc_value = True
+
+        def __init__(self):
+            pass
+
+        def step(self, *a, **k):
+            return None
+
+    return _Plateau()
+
+
+def om_setup(ctx):
+    lr, wd = ctx.fresh("stored_lr", "real"), ctx.fresh("stored_weight_decay", "real")
+    params = {"type": "adam", "lr": lr, "weight_decay": wd}
+    sparams = {"type": "exp", "factor": ctx.fresh("stored_factor", "real")}
+    which = ctx.fresh("scheduler_kind", "int")
+    ctx.assume(AND(which.t >= 0, which.t <= 2))
+    if ctx.branch(which.t == 0):
+        sched, kind = None, "none"
+    elif ctx.branch(which.t == 1):
+        sched, kind = _Sub("scheduler"), "plain"
+    else:
+        sched, kind = _plateau(), "plateau"
+    has_opt = ctx.fresh("has_optimizer", "bool")
+    opt = _Sub("optimizer") if ctx.branch(has_opt.t) else None
+    loss_given = ctx.fresh("loss_given", "bool")
+    loss = 0.5 if ctx.branch(loss_given.t) else None
+    o = Obj(OMC, dict(_optimizer=opt, _scheduler=sched, _optimizer_params=params, _scheduler_params=sparams))
+    return NS(self=o, loss=loss, params=params, sparams=sparams, kind=kind, opt=opt, sched=sched)
+
+
+def om_snapshot(s):
+    return NS(frame=frame_snapshot(s, ["params", "sparams"]))
+
+
+def om_ensures(s):
+    o = s.self
+    return [("reset-state:_optimizer_params-is-still-the-stored-dict(not-rebound)", o.fields["_optimizer_params"] is s.params),
+            ("reset-state:_scheduler_params-is-still-the-stored-dict(not-rebound)", o.fields["_scheduler_params"] is s.sparams),
+            ("the-optimizer-object-is-kept", o.fields["_optimizer"] is s.opt), ("the-scheduler-object-is-kept", o.fields["_scheduler"] is s.sched)] \
+        + frame_clauses(s, s.old.frame, label={"params": "stored-optimizer-params(what-reset_optimizer-rebuilds-from)",
+                                               "sparams": "stored-scheduler-params(what-reset_optimizer-rebuilds-from)"})
+
+
+def _om_contract(name, with_loss):
+    def setup(ctx):
+        s = om_setup(ctx)
+        if not with_loss:
+            del s.loss
+        return s
+    return Contract(f"{OM}:OptimizerMixin.{name}", setup=setup, ensures=om_ensures, snapshot=om_snapshot)
+
+
+C_OM_STEPSCHED = _om_contract("step_scheduler", True)
+C_OM_STEPOPT = _om_contract("step_optimizer", False)
+C_OM_ZERO = _om_contract("zero_optimizer_grad", False)
+
+
+def om_reset_setup(ctx):
+    s = om_setup(ctx)
+    del s.loss
+    calls = []
+    s.calls = calls
+    ctx.ghost["om_reset_calls"] = calls
+    return s
+
+
+def _same_params(x, ref):
+    """the stored dict itself or an equal copy of it (same keys, the very same values)"""
+    return x is ref or (isinstance(x, dict) and list(x.keys()) == list(ref.keys()) and all(x[k] is ref[k] for k in ref))
+
+
+def om_reset_ensures(s):
+    c = s.calls
+    return [("set_optimizer-is-called-once-with-the-stored-optimizer-params", len([x for x in c if x[0] == "opt"]) == 1 and _same_params([x for x in c if x[0] == "opt"][0][1], s.params)),
+            ("set_scheduler-is-called-once-with-the-stored-scheduler-params", len([x for x in c if x[0] == "sch"]) == 1 and _same_params([x for x in c if x[0] == "sch"][0][1], s.sparams)),
+            ("optimizer-is-rebuilt-before-its-scheduler", [x[0] for x in c] == ["opt", "sch"])] \
+        + frame_clauses(s, s.old.frame, label={"params": "stored-optimizer-params", "sparams": "stored-scheduler-params"})
+
+
+def _rec(tag, pname):
+    def result(ctx, s):
+        ctx.ghost.setdefault("om_reset_calls", []).append((tag, getattr(s, pname, None)))
+        return None
+    return result
+
+
+C_SETOPT_STUB = Contract(f"{OM}:OptimizerMixin.set_optimizer", setup=None, result=_rec("opt", "opt_params"),
+                         note="call-site stub: records the argument (what the optimizer is rebuilt from); torch.optim itself is outside reach")
+C_SETSCH_STUB = Contract(f"{OM}:OptimizerMixin.set_scheduler", setup=None, result=_rec("sch", "scheduler_params"),
+                         note="call-site stub: records the argument")
+C_OM_RESET = Contract(f"{OM}:OptimizerMixin.reset_optimizer", setup=om_reset_setup, ensures=om_reset_ensures, snapshot=om_snapshot,
+                      overrides={f"{OM}:OptimizerMixin.set_optimizer": C_SETOPT_STUB, f"{OM}:OptimizerMixin.set_scheduler": C_SETSCH_STUB})
+
+CONTRACTS = [C_SUBDIVIDE, C_GENERATE, C_ITER, C_LEN, C_ITERVAL, C_VALLEN, C_INIT, C_RNGSET, C_MSET, C_RESET, C_RESETRECON, C_RESETRECON2, C_CPA, C_ERR, C_RECORD, C_RECON, C_OM_STEPSCHED, C_OM_STEPOPT, C_OM_ZERO, C_OM_RESET]
 
 # --------------------------------------------------------------------------------------------
 # property-level lemmas
